@@ -10,6 +10,7 @@ import (
 	"github.com/milvus-io/milvus/pkg/util/funcutil"
 
 	"github.com/zilliztech/milvus-cdc/core/api"
+	"github.com/zilliztech/milvus-cdc/core/pb"
 	"github.com/zilliztech/milvus-cdc/core/verifkit/sched"
 )
 
@@ -82,6 +83,24 @@ func (r *plRun) shardOf(srcV string) (*plColl, *plShard) {
 	return nil, nil
 }
 
+// dropInFlight: the message is addressed to a partition that exists downstream and that an addpart driver of the
+// scenario announces in state Dropping (its drop message is still to come in the stream)
+func (r *plRun) dropInFlight(s *plSrcMsg) bool {
+	c := r.collByID(s.Coll)
+	if c == nil {
+		return false
+	}
+	if _, ok := c.TgtParts[s.Part]; !ok {
+		return false
+	}
+	for _, d := range r.sc.Drivers {
+		if d.Kind == "addpart" && r.sc.Colls[d.Coll] == c && d.Part == s.Part && d.PartState == pb.PartitionState_PartitionDropping && !d.OldPart && !d.NewPart {
+			return true
+		}
+	}
+	return false
+}
+
 // expectedSrc: the source messages that must be emitted
 func (r *plRun) expectedSrc() []*plSrcMsg {
 	var out []*plSrcMsg
@@ -120,6 +139,11 @@ func (a *plAnalysis) checkC01() {
 	}
 	for _, s := range r.expectedSrc() {
 		if len(a.byID[s.ID]) == 0 && r.mq.Pending() == 0 {
+			if s.Kind == "del" && s.Part != "" && r.dropInFlight(s) {
+				// (own signature: the handler leaves such deletes out on purpose - isDroppingPartition - see known findings)
+				a.v("C01/missing/del/partition-drop-in-flight", "source message %s (delete ts=%d, partition %s) of stream %s was read but never emitted: the partition had been announced as Dropping, the downstream still has it and its drop message comes later in the stream", s.ID, s.Ts, s.Part, s.Stream)
+				continue
+			}
 			a.v("C01/missing/"+s.Kind, "source message %s (%s ts=%d) of stream %s was read but never emitted", s.ID, s.Kind, s.Ts, s.Stream)
 		}
 	}
